@@ -31,7 +31,10 @@ EXPLANATION = (
     "masked_mse_loss evaluated through, records and comprehensions read); in a world the flags are numbers, so whatever builds the post-terminal weight "
     "(carried product, cumprod / cumsum tables, where, logical operations, time-major scanning, a weight applied after the scan) folds to a number, while "
     "network outputs and error terms stay symbolic and carry the step they were computed in. The errors of steps after the first terminated one must "
-    "vanish, those of the steps up to and including it must be the ones of the world without termination; a world and a step where this fails is the witness."
+    "vanish, those of the steps up to and including it must be the ones of the world without termination; a world and a step where this fails is the witness. "
+    "Carriers are read through: position i / field f of a NamedTuple a helper returns is the constructor argument it was built with (also for the two results of "
+    "discounted_n_step_return), nnx.scan(f, in_axes=.., out_axes=..)(args) is the decorator written as a call, and a batch is the result of sample_batch also when "
+    "the method was bound to a name, wrapped in functools.partial or chosen by a conditional expression."
 )
 TRUSTED = [
     "optax.squared_error / l2_loss / huber_loss, jnp semantics of max / minimum / take_along_axis / clip",
@@ -187,6 +190,20 @@ def _ret(nf, qual, env):
         return nf.return_poly(qual, env)
     except ValueError as e:
         raise AnalysisError(f"{e} (unrecognised form)")
+
+
+class _NF(NF):
+    """The normal-form engine with one more reading: position i of a plain record (NamedTuple / dataclass carrier built by a helper and unpacked
+    or indexed by the caller) is the i-th constructor argument in field order - the value the helper put there - not an opaque component."""
+
+    def _project(self, p, path):
+        for i in path:
+            m = self.meta.get(p.single_atom() or "", {}) if p.elems is None else {}
+            if isinstance(i, int) and m.get("record") and 0 <= i < len(m.get("args", [])) and len(m["args"]) == len(m["record"]):
+                p = m["args"][i]
+            else:
+                p = super()._project(p, (i,))
+        return p
 
 
 def _loss_of(nf, ret: Poly) -> Poly:
@@ -651,7 +668,7 @@ def _readable_prediction(nf, P, site, theta):
 
 def run(ck, repo: Repo, tier: str):
     ck.opaque_is_unread = True      # a loss term that is an opaque comprehension / record value has not been read by the normal-form engine
-    nf = NF(repo, no_inline={"rl_blox.blox.losses.huber_loss", "rl_blox.blox.return_estimates.discounted_n_step_return"}, inline_depth=4 if tier == "quick" else 6)
+    nf = _NF(repo, no_inline={"rl_blox.blox.losses.huber_loss", "rl_blox.blox.return_estimates.discounted_n_step_return"}, inline_depth=4 if tier == "quick" else 6)
     nf.expand_squares = False
     nf.track_sg = True
     # Batch field order from ReplayBuffer.__init__
@@ -913,14 +930,30 @@ def _mrq_target(S, nf, tag, T):
     a = _nested(nf, T, ("reward_scale", "target_reward_scale"))
     if a is not None:
         return S.undecided(key, f"the reward scales enter the target inside `{a[:80]}`")
-    # the n-step calls the target is built from, with their arguments
-    calls = {}
+    # the n-step calls the target is built from, with their arguments and the position of the result that is read: `res[i]`, an unpacked name,
+    # or the field of the record (NamedTuple) the function returns - field f of a record is its position in the constructor order
+    calls, pos_of = {}, {}
+    fields = _result_fields(nf)
     for at_ in T.atoms():
         m = nf.meta.get(at_) or {}
-        inner = nf.meta.get(m["args"][0].single_atom() or "") if m.get("fn") == "proj" and m.get("args") else None
+        ba = m["args"][0].single_atom() if m.get("fn") in ("proj", "attr") and m.get("args") else None
+        inner = nf.meta.get(ba or "")
         if inner and inner["fn"] == _NSTEP:
             calls[at_] = [x.canon() for x in inner["args"]] + [f"{k}={v_.canon()}" for k, v_ in sorted(inner["kws"].items())]
-    if not any(a_ in calls for a_ in (G, C)):
+            sel = at_[len(ba):]
+            mi_ = re.fullmatch(r"\[(\d+)\]", sel)
+            if m["fn"] == "proj" and mi_:
+                pos_of[at_] = int(mi_.group(1))
+            elif m["fn"] == "attr" and fields and sel.startswith(".") and sel[1:] in fields:
+                pos_of[at_] = fields.index(sel[1:])
+    # a violation is decided only where every value built from an n-step call shows which result it is (`est[-1]`, `g, *rest = ...`, a slice
+    # of the result tuple are not read here)
+    hidden = sorted(a_ for a_ in T.atoms() if (_NSTEP + "(") in a_ and a_ not in pos_of)
+    if hidden:
+        return S.undecided(key, f"`{hidden[0][:90]}` is built from a result of discounted_n_step_return, which of the two is not visible")
+    mine = {pos_of[a_]: a_ for a_, c in calls.items() if c == ["batch[2]", "batch[4]", "gamma"]}
+    G, C = mine.get(0, G), mine.get(1, C)
+    if not mine:
         others = [c for c in calls.values() if c != ["batch[2]", "batch[4]", "gamma"]]
         if others and all(_LEAF.fullmatch(x) for c in others for x in c):
             S.ob("R1-target-identity", key, False, shown, f"the n-step return is computed from {others[0]} instead of (reward, terminated, gamma)", read=[T])
@@ -943,6 +976,27 @@ def _mrq_target(S, nf, tag, T):
                 B = ts[1]
     r = S.ob("R1-target-identity", key, ok1, shown, why, read=[T])
     return B if r is True else None
+
+
+def _result_fields(nf):
+    """Field names, in constructor order, of the record discounted_n_step_return returns on every path (None for a plain tuple / anything else)."""
+    try:
+        fn = nf.repo.func(_NSTEP)
+    except Exception:
+        return None
+    found = []
+    for r in (x for x in ast.walk(fn) if isinstance(x, ast.Return)):
+        v = r.value
+        q = nf.repo.resolve_expr(fn._module, v.func) if isinstance(v, ast.Call) and isinstance(v.func, (ast.Name, ast.Attribute)) else None
+        try:
+            node = nf.repo.lookup(q)[1] if q else None
+        except Exception:
+            node = None
+        f = nf._record_fields(node) if node is not None else None
+        if f is None:
+            return None
+        found.append(tuple(f))
+    return list(found[0]) if found and len(set(found)) == 1 else None
 
 
 def _sale(ck, repo, nf):
@@ -995,6 +1049,23 @@ def _known(ident):
     return all(isinstance(i, tuple) and i and i[0] in _RESOLVED and (i[0] != "attr" or _known(i[1])) for i in alternatives(ident))
 
 
+def _sample_callee(cfg, f, at, depth=0):
+    """The called expression is the `sample_batch` method of some object: the attribute itself, a copy of it, functools.partial(<one>, options..), or a
+    conditional expression both arms of which are one (which options are bound does not change what the result is: the sampled batch)."""
+    if depth > 6:
+        return False
+    if isinstance(f, ast.Attribute):
+        return f.attr == "sample_batch"
+    if isinstance(f, ast.IfExp):
+        return _sample_callee(cfg, f.body, at, depth + 1) and _sample_callee(cfg, f.orelse, at, depth + 1)
+    if isinstance(f, ast.Call) and dotted(f.func) in ("partial", "functools.partial") and f.args and not isinstance(f.args[0], ast.Starred):
+        return _sample_callee(cfg, f.args[0], at, depth + 1)
+    if isinstance(f, ast.Name):
+        ds = cfg.defs_of(at, f.id)
+        return bool(ds) and all(d.kind == "assign" and d.value is not None and _sample_callee(cfg, d.value, d.node, depth + 1) for d in ds)
+    return False
+
+
 def _batch_source(cfg, e, at, depth=0):
     """Where a batch-valued expression comes from: ('sample', defs key, unpack path) for the result of <buffer>.sample_batch(..) reached through plain
     copies, else None."""
@@ -1007,7 +1078,10 @@ def _batch_source(cfg, e, at, depth=0):
     v = d.value
     if d.kind == "assign" and isinstance(v, ast.Name):
         return _batch_source(cfg, v, d.node, depth + 1)
-    if d.kind in ("assign", "unpack") and isinstance(v, ast.Call) and isinstance(v.func, ast.Attribute) and v.func.attr == "sample_batch":
+    if d.kind == "unpack" and isinstance(v, ast.Name):
+        r = _batch_source(cfg, v, d.node, depth + 1)           # `out = buffer.sample_batch(..); batch, ratio = out`
+        return (r[0], r[1], tuple(d.path or ())) if r is not None and r[2] == () else None
+    if d.kind in ("assign", "unpack") and isinstance(v, ast.Call) and _sample_callee(cfg, v.func, d.node):
         return ("sample", d.node, tuple(d.path or ()) if d.kind == "unpack" else ())
     return None
 
@@ -1207,7 +1281,7 @@ class _V:
     polynomial per time step of an array with a time axis; axis: position of the time axis in a (batch, time) / (time, batch) array, None for
     a one-dimensional sequence over time; stacked: the stacked per-step outputs of a scan), 'tup' (items, fields for records), 'batch',
     'fn' (node, ctx), 'ref' (q: dotted name of a module-level / library object), 'none'.  taint: depends on the termination flags."""
-    __slots__ = ("k", "p", "cols", "axis", "items", "fields", "taint", "node", "ctx", "q", "stacked", "fill", "mixed")
+    __slots__ = ("k", "p", "cols", "axis", "items", "fields", "taint", "node", "ctx", "q", "stacked", "fill", "mixed", "dec")
 
     def __init__(self, k, **kw):
         self.k = k
@@ -1815,6 +1889,8 @@ class _Rollout:
             if q.startswith("rl_blox."):
                 return self.repo_call(q, c, ctx, at)
             short_name = q.rsplit(".", 1)[-1]
+            if q == "flax.nnx.scan" and len(c.args) == 1 and not isinstance(c.args[0], ast.Starred):
+                return self.lifted_scan_value(c, ctx, at)
             if q in ("flax.nnx.scan", "jax.lax.scan") and c.args:
                 return self.lax_or_lifted_scan(q, c, ctx, at)
             if self.expand_sq and short_name in ("squared_error", "l2_loss") and q.startswith("optax."):
@@ -2139,10 +2215,27 @@ class _Rollout:
         dctx = f.ctx
         mi = dctx.mi if dctx is not None else f.q
         dec = self.scan_decorator(fn, dctx if dctx is not None else _Ctx(self, fn, mi, {}, "", None, None, ctx.depth + 1)) if isinstance(fn, ast.FunctionDef) else None
+        own = getattr(f, "dec", None)           # the function value is nnx.scan(fn, in_axes=.., out_axes=..): the call form of the decorator
+        if own is not None and dec is not None:
+            raise _Unread(f"scan of the scanned function `{fn.name}`")
         binding = self.bind(fn, c, ctx, at)
         parent_at = None
         if dctx is not None:
             parent_at = at if dctx is ctx else (dctx.cfg.node_of(fn).id if isinstance(fn, ast.FunctionDef) else None)
+        if own is not None:
+            dec, actx, dat = own
+            kw = {k.arg: k.value for k in dec.keywords}
+            if set(kw) - {"in_axes", "out_axes", "length"}:
+                raise _Unread(f"scan options `{short(dec, 60)}`")
+            names = [x.arg for x in fn.args.posonlyargs + fn.args.args]
+            ia = self.axes(kw.get("in_axes"), actx, len(names), dat)
+            oa = self.axes(kw.get("out_axes"), actx, None, dat)
+            if any(n_ not in binding for n_ in names):
+                raise _Unread(f"`{short(c, 50)}` does not pass every argument of the scanned function")
+            length = _int(self.ev(kw["length"], actx, dat)) if "length" in kw else None
+            if "length" in kw and length is None:
+                raise _Unread(f"scan length `{short(kw['length'], 40)}`")
+            return self.scan(fn, mi, dctx, parent_at, names, [binding[n_] for n_ in names], ia, oa, ctx, c, length)
         if dec is None:
             sub = _Ctx(self, fn, mi, binding, ctx.tag + f"/{getattr(c, 'lineno', 0)}.{getattr(c, 'col_offset', 0)}", dctx, parent_at, ctx.depth + 1)
             return self.returns(fn, sub)
@@ -2165,11 +2258,15 @@ class _Rollout:
         """in_axes / out_axes as a list of 'carry' / None / int."""
         if e is None:
             return ["carry", 0] if n in (None, 2) else None
-        if not isinstance(e, ast.Tuple):
-            raise _Unread(f"scan axes `{short(e, 40)}`")
+        if isinstance(e, ast.Tuple):
+            vals = [(x, self.ev(x, dctx, at)) for x in e.elts]
+        else:
+            tv = self.ev(e, dctx, at)           # the axes kept in a local / module-level name
+            if tv.k != "tup" or tv.fields:
+                raise _Unread(f"scan axes `{short(e, 40)}`")
+            vals = [(e, x) for x in tv.items]
         out = []
-        for x in e.elts:
-            v = self.ev(x, dctx, at)
+        for x, v in vals:
             if v.k == "ref" and v.q and v.q.endswith(".Carry"):
                 out.append("carry")
             elif v.k == "none":
@@ -2243,6 +2340,27 @@ class _Rollout:
                 res.append(self.stack([o[k] for o in outs], c))
                 k += 1
         return _V("tup", items=res, taint=any(self.vt(x) for x in res))
+
+    def lifted_scan_value(self, c, ctx, at):
+        """nnx.scan(f, in_axes=.., out_axes=..) as a value: the function f, to be applied with the scan options of this call (the decorator, written as a call)."""
+        if any(k.arg is None for k in c.keywords):
+            raise _Unread(f"scan options `{short(c, 60)}`")
+        f = self.ev(c.args[0], ctx, at)
+        if f.k == "ref" and (f.q or "").startswith("rl_blox."):
+            try:
+                mi, node = self.repo.lookup(f.q)
+            except Exception:
+                node = None
+            if not isinstance(node, ast.FunctionDef):
+                raise _Unread(f"scanned function `{short(c.args[0], 40)}`")
+            node._module = mi
+            f = _V("fn", node=node, ctx=None)
+            f.q = mi
+        if f.k != "fn" or isinstance(f.node, str) or getattr(f, "dec", None) is not None:
+            raise _Unread(f"scanned function `{short(c.args[0], 40)}`")
+        g = _V("fn", node=f.node, ctx=f.ctx, dec=(c, ctx, at))
+        g.q = f.q
+        return g
 
     def lax_or_lifted_scan(self, q, c, ctx, at):
         """jax.lax.scan(f, init, xs) with f(carry, x) -> (carry, y)."""
@@ -2419,6 +2537,24 @@ _F = "rl_blox/blox/losses.py"
 _EF = "rl_blox/blox/embedding/model_based_encoder.py"
 _DDQN_SEL = "    indices = jnp.argmax(next_q, axis=1).reshape(-1, 1)\n    next_q_t = jax.lax.stop_gradient(q_target(next_obs))\n    next_vals = jnp.take_along_axis(next_q_t, indices, axis=1).squeeze()\n"
 _TD3T = "    q_next = jax.lax.stop_gradient(q_target(next_obs_act).squeeze())\n    q_target_value = reward + (1 - terminated) * gamma * q_next\n    return _mse_clipped_double_q_loss(q_target_value, q, action, observation)\n\n\ndef _mse"
+# round 2: the scan written as a call, records carried across helpers, the sampling method bound to a name
+_SCAN_DEC = "    @nnx.scan(\n        in_axes=(nnx.Carry, None, None, None, None, None, None, 0),\n        out_axes=(nnx.Carry, 0, 0, 0, 0),\n    )\n    def model_rollout(\n"
+_SCAN_APP = "    _, dynamics_loss, reward_loss, done_loss, reward_mse = model_rollout(\n"
+_SCAN_CALL_FORM = [
+    (_SCAN_DEC, "    def rollout_step(\n"),
+    (_SCAN_APP, "    unrolled = nnx.scan(\n        rollout_step,\n        out_axes=(nnx.Carry, 0, 0, 0, 0),\n        in_axes=(nnx.Carry, None, None, None, None, None, None, 0),\n    )\n"
+                "    _, dynamics_loss, reward_loss, done_loss, reward_mse = unrolled(\n")]
+_NAT_BODY = ("    obs, action, reward, next_obs, terminated = batch\n\n    next_q = jax.lax.stop_gradient(q_target(next_obs))\n    max_next_q = jnp.max(next_q, axis=1)\n\n"
+             "    target = jnp.array(reward) + (1 - terminated) * gamma * max_next_q\n\n    return mse_discrete_action_value_loss(obs, action, target, q)\n")
+_NAT_HELPER = ("class _Regression(NamedTuple):\n    y: jnp.ndarray\n    o: jnp.ndarray\n    a: jnp.ndarray\n\n\n"
+               "def _nature_regression(q_target, batch, gamma):\n    obs, action, reward, next_obs, terminated = batch\n"
+               "    best = jnp.max(jax.lax.stop_gradient(q_target(next_obs)), axis=1)\n"
+               "    return _Regression(o=obs, a=action, y=jnp.array(reward) + (1 - terminated) * gamma * best)\n\n\n@nnx.jit\ndef nature_dqn_loss(\n")
+_NAT_RECORD = [
+    ("import chex\n", "from typing import NamedTuple\n\nimport chex\n"),
+    ("@nnx.jit\ndef nature_dqn_loss(\n", _NAT_HELPER),
+    (_NAT_BODY, "    target, obs, action = _nature_regression(q_target, batch, gamma)\n    return mse_discrete_action_value_loss(obs, action, target, q)\n")]
+_PER_SAMPLE = "                transition_batch, is_ratio = replay_buffer.sample_batch(batch_size, rng, beta[step])\n"
 MUTANTS = [
     {"id": "c03-td3-mask-dropped", "file": _F, "rule": "R1", "find": _TD3T, "replace": _TD3T.replace("reward + (1 - terminated) * gamma * q_next", "reward + gamma * q_next")},
     {"id": "c03-td3-one-plus-d", "file": _F, "rule": "R1", "find": _TD3T, "replace": _TD3T.replace("(1 - terminated)", "(1 + terminated)")},
@@ -2491,7 +2627,22 @@ MUTANTS = [
         ("        prev_not_done = not_done[:, t] * prev_not_done\n", "        prev_not_done = prev_not_done * not_done\n"),
         ("        next_zs,\n        not_done,\n        environment_terminates,\n        jnp.arange(encoder_horizon),", "        next_zs,\n        jnp.reshape(not_done, (encoder_horizon, -1)),\n        environment_terminates,\n        jnp.arange(encoder_horizon),")]},
     {"id": "c03-enc-where-mask-inverted", "file": _EF, "rule": "R8", "accept_error": True, "find": "        prev_not_done = not_done[:, t] * prev_not_done\n", "replace": "        prev_not_done = jnp.where(batch.terminated[:, t] > 0, prev_not_done, jnp.zeros_like(prev_not_done))\n"},
+    # round 2
+    {"id": "c03-enc-scan-call-form-mask-not-carried", "file": _EF, "rule": "R8", "edits": _SCAN_CALL_FORM + [
+        ("        prev_not_done = not_done[:, t] * prev_not_done\n", "        prev_not_done = not_done[:, t]\n")]},
+    {"id": "c03-nature-record-carrier-mask-dropped", "file": _F, "rule": "R1", "edits": _NAT_RECORD[:1] + [
+        (_NAT_RECORD[1][0], _NAT_HELPER.replace("(1 - terminated) * gamma * best", "gamma * best")), _NAT_RECORD[2]]},
+    {"id": "c03-nature-record-carrier-unpacked-in-keyword-order", "file": _F, "rule": "R", "edits": _NAT_RECORD[:2] + [
+        (_NAT_BODY, "    obs, action, target = _nature_regression(q_target, batch, gamma)\n    return mse_discrete_action_value_loss(obs, action, target, q)\n")]},
+    {"id": "c03-per-bound-sampler-ratio-as-batch", "file": "rl_blox/algorithm/per.py", "rule": "R7", "find": _PER_SAMPLE,
+     "replace": "                draw = partial(replay_buffer.sample_batch, batch_size)\n                is_ratio, transition_batch = draw(rng, beta[step])\n"},
+    {"id": "c03-mrq-nstep-results-by-index-swapped", "file": "rl_blox/algorithm/mrq.py", "rule": "R1", "find": "    n_step_return, discount = discounted_n_step_return(\n        reward, terminated, gamma\n    )\n",
+     "replace": "    est = discounted_n_step_return(reward, terminated, gamma)\n    n_step_return, discount = est[1], est[0]\n"},
+    {"id": "c03-per-sampled-pair-copied-then-unpacked-swapped", "file": "rl_blox/algorithm/per.py", "rule": "R7", "find": _PER_SAMPLE,
+     "replace": "                sampled = replay_buffer.sample_batch(batch_size, rng, beta[step])\n                is_ratio, transition_batch = sampled\n"},
 ]
+
+
 BENIGN = [
     {"id": "c03-b-lap-whole-target-frozen", "file": _F, "nth": 1, "find": '    q_next = jax.lax.stop_gradient(q_target(next_obs_act).squeeze())\n    q_target_value = reward + (1 - terminated) * gamma * q_next\n', "replace": '    q_next = q_target(next_obs_act).squeeze()\n    q_target_value = jax.lax.stop_gradient(reward + (1 - terminated) * gamma * q_next)\n'},
     {"id": "c03-b-td3-sg-alias", "file": _F, "nth": 0, "find": '    q_next = jax.lax.stop_gradient(q_target(next_obs_act).squeeze())\n    q_target_value = reward + (1 - terminated) * gamma * q_next\n', "replace": '    sg = jax.lax.stop_gradient\n    q_next = sg(q_target(next_obs_act)).squeeze()\n    q_target_value = reward + (1 - terminated) * gamma * q_next\n'},
@@ -2549,4 +2700,22 @@ BENIGN = [
      "replace": "        per_sample_ce = two_hot_cross_entropy_loss(\n            the_bins, pred_reward_logits_t, target_reward_t\n        )\n        reward_loss = jnp.sum(jnp.multiply(prev_not_done, per_sample_ce)) / per_sample_ce.shape[0]\n"},
     {"id": "c03-b-enc-done-error-by-hand", "file": _EF, "find": "            masked_mse_loss(\n                pred_done_t[:, jnp.newaxis],\n                target_done_t[:, jnp.newaxis],\n                prev_not_done,\n            ),\n            0.0,\n",
      "replace": "            jnp.mean(jnp.square(pred_done_t - target_done_t) * prev_not_done),\n            0.0,\n"},
+    # round 2
+    {"id": "c03-b-enc-scan-call-form", "file": _EF, "edits": _SCAN_CALL_FORM},
+    {"id": "c03-b-nature-record-carrier", "file": _F, "edits": _NAT_RECORD},
+    {"id": "c03-b-per-bound-sampler", "file": "rl_blox/algorithm/per.py", "find": _PER_SAMPLE,
+     "replace": "                draw = partial(replay_buffer.sample_batch, batch_size)\n                transition_batch, is_ratio = draw(rng, beta[step])\n"},
+    {"id": "c03-b-per-sampler-chosen-by-flag", "file": "rl_blox/algorithm/per.py", "find": _PER_SAMPLE,
+     "replace": "                draw = replay_buffer.sample_batch if step > 0 else partial(replay_buffer.sample_batch, beta=beta[step])\n                transition_batch, is_ratio = draw(batch_size, rng, beta[step])\n"},
+    {"id": "c03-b-nstep-returns-record", "file": "rl_blox/blox/return_estimates.py", "edits": [
+        ("import jax.numpy as jnp\n", "from typing import NamedTuple\n\nimport jax.numpy as jnp\n\n\nclass _Estimate(NamedTuple):\n    value: jnp.ndarray\n    remaining_discount: jnp.ndarray\n"),
+        ("    return n_step_return, discount\n", "    return _Estimate(remaining_discount=discount, value=n_step_return)\n")]},
+    {"id": "c03-b-mrq-nstep-results-by-index", "file": "rl_blox/algorithm/mrq.py", "find": "    n_step_return, discount = discounted_n_step_return(\n        reward, terminated, gamma\n    )\n",
+     "replace": "    est = discounted_n_step_return(gamma=gamma, terminated=terminated, reward=reward)\n    discount, n_step_return = est[1], est[0]\n"},
+    {"id": "c03-b-per-sampled-pair-copied-then-unpacked", "file": "rl_blox/algorithm/per.py", "find": _PER_SAMPLE,
+     "replace": "                sampler = replay_buffer.sample_batch\n                sampled = sampler(batch_size, rng, beta=beta[step])\n                transition_batch, is_ratio = sampled\n"},
+    {"id": "c03-b-enc-scan-call-form-axes-named-applied-inline", "file": _EF, "edits": [
+        (_SCAN_DEC, "    def rollout_step(\n"),
+        (_SCAN_APP, "    ins = (nnx.Carry, None, None, None, None, None, None, 0)\n    outs = (nnx.Carry, 0, 0, 0, 0)\n"
+                    "    _, dynamics_loss, reward_loss, done_loss, reward_mse = nnx.scan(rollout_step, in_axes=ins, out_axes=outs)(\n")]},
 ]
